@@ -78,6 +78,9 @@ type Scenario struct {
 	DeadlineUS int `json:"deadline_us,omitempty"`
 	// Variant of the barrier family (how workers were stressed before the barrier).
 	Variant int `json:"variant,omitempty"`
+	// LooseErrs: every third job's error has an Is method that matches any
+	// foreign error (hence also any sentinel the scheduler may use internally).
+	LooseErrs bool `json:"loose_errs,omitempty"`
 }
 
 func (s *Scenario) hasGoexit() bool {
@@ -269,6 +272,7 @@ func genMix(r *vc.Rand, index int) *Scenario {
 	if r.Chance(1, 10) {
 		sc.WaitOtherCtx = true
 	}
+	sc.LooseErrs = r.Chance(1, 6)
 	return sc
 }
 
